@@ -13,6 +13,7 @@ import (
 
 	"github.com/tsenart/vegeta/v12/internal/simrt"
 	vegeta "github.com/tsenart/vegeta/v12/lib"
+	"github.com/tsenart/vegeta/v12/lib/plot"
 	"github.com/tsenart/vegeta/v12/lib/lttb"
 )
 
@@ -208,7 +209,30 @@ func runPlot(t *simrt.Tape, keep bool) simrt.Outcome {
 		r.stats["fault.out-of-order-arrival"]++
 	}
 	var err error
-	r.guard("plotRun", func() { err = plotRun(paths, threshold, "sim", out) })
+	if t.Prob(1, 3) {
+		// the library as another caller may use it: the results handed to Add one after the other through one
+		// reused Result variable, in the arrival order (Add must have taken what it needs when it returns)
+		r.stats["probe.plot-library-reused-result"]++
+		r.guard("plot.Add", func() {
+			p := plot.New(plot.Title("sim"), plot.Downsample(threshold), plot.Label(plot.ErrorLabeler))
+			var res vegeta.Result
+			for _, idx := range order {
+				res = all[idx]
+				if err = p.Add(&res); err != nil {
+					return
+				}
+			}
+			res = vegeta.Result{}
+			p.Close()
+			var f *os.File
+			if f, err = os.Create(out); err == nil {
+				_, err = p.WriteTo(f)
+				f.Close()
+			}
+		})
+	} else {
+		r.guard("plotRun", func() { err = plotRun(paths, threshold, "sim", out) })
+	}
 	if r.viol != nil {
 		return r.outcome(sample, true)
 	}
